@@ -21,6 +21,14 @@ def one(d, tier, check_jobs):
         p = subprocess.run(["/venv/bin/python", "-B", "-m", "vf.run", prop, "--tier", tier], cwd=ROOT, env=env, stdout=subprocess.PIPE, stderr=subprocess.STDOUT)
         out = p.stdout.decode("utf-8", "replace")
         keys = sorted({l.strip().split("]")[0][1:] for l in out.splitlines() if l.strip().startswith("[" + prop)})
+        expected_held = False
+        try:
+            expected_held = json.load(open(os.path.join(d, "meta.json"))).get("expected") == "held"
+        except Exception:
+            pass
+        if expected_held:
+            # a stored change that, on inspection, does not violate the property as stated: the check must stay silent
+            return sid, {"rc": p.returncode, "status": "caught" if p.returncode == 0 else "ALARM ON A CHANGE THAT KEEPS THE PROPERTY", "keys": keys[:8], "expected": "held"}
         return sid, {"rc": p.returncode, "status": "caught" if p.returncode == 1 else "NOT CAUGHT", "keys": keys[:8]}
     finally:
         shutil.rmtree(scratch, ignore_errors=True)
